@@ -282,16 +282,22 @@ impl Woz1 {
     }
     /// Find track and get a reference
     fn get_trk_ref(&self,track: u8) -> Result<&Trk,img::NibbleError> {
-        return Ok(&self.trks.tracks[self.get_trk_idx(track)?]);
+        match self.trks.tracks.get(self.get_trk_idx(track)?) {
+            Some(trk) => Ok(trk),
+            None => Err(img::NibbleError::BadTrack)
+        }
     }
     /// Get a reference to the track bits
     fn get_trk_bits_ref(&self,track: u8) -> Result<&[u8],img::NibbleError> {
-        return Ok(&self.trks.tracks[self.get_trk_idx(track)?].bits);
+        return Ok(&self.get_trk_ref(track)?.bits);
     }
     /// Get a mutable reference to the track bits
     fn get_trk_bits_mut(&mut self,track: u8) -> Result<&mut [u8],img::NibbleError> {
         let idx = self.get_trk_idx(track)?;
-        return Ok(&mut self.trks.tracks[idx].bits);
+        match self.trks.tracks.get_mut(idx) {
+            Some(trk) => Ok(&mut trk.bits),
+            None => Err(img::NibbleError::BadTrack)
+        }
     }
     /// Create a lightweight trait object to read/write the bits.  The nibble format will be
     /// determined by the image's underlying `DiskKind`.
